@@ -53,6 +53,13 @@ def rich_lens(rnd):
         feats.add("fieldgroup_telecentric_flag")
     n = sg.num_surfaces
     for k in range(1, n - 1):
+        g = sg.surfaces[k].geometry
+        if type(g).__name__ == "ChebyshevPolynomialGeometry" and rnd.random() < 0.5:
+            # normalisation lengths are lengths like any other: not necessarily whole numbers
+            g.norm_x = rnd.choice([64.5, 100.25, 77.7])
+            g.norm_y = rnd.choice([64.5, 90.125, 81.3])
+            feats.add("chebyshev_fractional_norm")
+    for k in range(1, n - 1):
         s = sg.surfaces[k]
         c = rnd.random()
         if c < 0.15 and s.material_pre is not None and not s.is_reflective:
